@@ -1,5 +1,7 @@
 import Vore.Driver.Print
 import Vore.Driver.OpsC04
+import Vore.Driver.OpsC05
+import Vore.Driver.OpsC20
 /-!
 # Vore.Driver.Ops — registry of the per-property driver operations
 
@@ -9,6 +11,6 @@ Each property that needs its own line-protocol operations defines, in
 -/
 namespace Vore.Driver
 
-def extraOps : List (String → List String → Option String) := [handleC04]
+def extraOps : List (String → List String → Option String) := [handleC04, handleC05, handleC20]
 
 end Vore.Driver
